@@ -309,6 +309,19 @@ pub fn beamline_helix() -> impl Strategy<Value = [f64; 6]> {
     (zeroish(), zeroish(), -1.0f64..=1.0, prop_oneof![0.03f64..0.053, Just(0.053f64), 0.053f64..0.3], -PI..=PI, pitch()).prop_map(|(x0, y0, z0, r, phi0, h)| [x0, y0, z0, r, phi0, h])
 }
 
+/// Boundary values: the circle passes through the beam line exactly (distance
+/// of closest approach 0, bit for bit when the centre is on a coordinate axis;
+/// to rounding otherwise).
+pub fn origin_helix() -> impl Strategy<Value = [f64; 6]> {
+    (0.06f64..=3.0, prop_oneof![4 => 0u8..4, 1 => Just(4u8)], -PI..=PI, -1.0f64..=1.0, pitch()).prop_map(|(r, axis, a, z0, h)| match axis {
+        0 => [r, 0.0, z0, r, PI, h],
+        1 => [-r, 0.0, z0, r, 0.0, h],
+        2 => [0.0, r, z0, r, -PI / 2.0, h],
+        3 => [0.0, -r, z0, r, PI / 2.0, h],
+        _ => [r * a.cos(), r * a.sin(), z0, r, a + PI, h],
+    })
+}
+
 pub fn track_of(p: &[f64; 6], t_inner: f64, t_outer: f64) -> Track {
     rh::track_from_helix(*p, t_inner, t_outer)
 }
